@@ -7,7 +7,10 @@ Lemmas about the lowering model (`Model/Lower.lean`), used by `Props/C10.lean`:
 * `PK.linVal` algebra (cons, append of one term, `List.set`, negated coefficients);
 * `Expr.extractLinear_sound`, `LModel.linearise_sound`;
 * `LModel.materializeLin_sem` (all six comparison operators on integers);
-* `LModel.applyVarEqBounds_sound`.
+* `LModel.applyVarEqBounds_sound`;
+* auxiliary variables of `+`/`-` trees (`getExprVar_spec`), and — section 8 — the reified
+  disjunction an `or` of two comparisons is lowered to (`operands_spec`, `postReif_spec`,
+  `reifOr_spec`, `materialize_or_bins`).
 -/
 namespace Selen
 
@@ -750,16 +753,6 @@ def AS : Expr → Bool
   | .sub a b => AS a && AS b
   | _ => false
 
-/-- all variables of the tree are below `n` -/
-def varsLt (n : Nat) : Expr → Bool
-  | .var i => decide (i < n)
-  | .val _ => true
-  | .add a b => varsLt n a && varsLt n b
-  | .sub a b => varsLt n a && varsLt n b
-  | .mul a b => varsLt n a && varsLt n b
-  | .div a b => varsLt n a && varsLt n b
-  | .mod a b => varsLt n a && varsLt n b
-
 /-- value of a `+`/`-` tree (total) -/
 def ev (a : Nat → Int) : Expr → Int
   | .var i => a i
@@ -1461,6 +1454,330 @@ theorem materialize_general (m : LModel) (l r : Expr) (op : CmpOp)
         ((m.getExprVar l).1.getExprVar r).2 := by
   cases l <;> cases r <;>
     first | (exfalso; simp [Expr.isVar] at h1 h2; done) | (cases op <;> rfl)
+
+
+/-! ### 8. `or` of two comparisons: the reified disjunction (`reifOr`) -/
+
+/-- the `Or` arm on two comparisons that are not the same-variable special case, integer operands -/
+theorem materialize_or_unfold (m : LModel) (l1 r1 l2 r2 : Expr) (op1 op2 : CmpOp) :
+    m.materialize (.or (.bin l1 op1 r1) (.bin l2 op2 r2)) =
+      (match sameVarEq l1 op1 r1 l2 op2 r2 with
+       | some (x, p, q) =>
+         ((m.newVar (if p = q then [p] else if p < q then [p, q] else [q, p])).1.post
+           (.eqVV x (m.newVar (if p = q then [p] else if p < q then [p, q] else [q, p])).2))
+       | none =>
+         if m.intOperands l1 r1 l2 r2 then m.reifOr l1 op1 r1 l2 op2 r2
+         else (m.materialize (.bin l1 op1 r1)).materialize (.bin l2 op2 r2)) := rfl
+
+theorem materialize_or_bins (m : LModel) (l1 r1 l2 r2 : Expr) (op1 op2 : CmpOp)
+    (hs : sameVarEq l1 op1 r1 l2 op2 r2 = none) (hi : m.intOperands l1 r1 l2 r2 = true) :
+    m.materialize (.or (.bin l1 op1 r1) (.bin l2 op2 r2)) = m.reifOr l1 op1 r1 l2 op2 r2 := by
+  rw [materialize_or_unfold, hs]
+  simp only [hi, if_true]
+
+theorem mem_rangeDom (lo hi v : Int) : v ∈ rangeDom lo hi ↔ lo ≤ v ∧ v ≤ hi := by
+  simp only [rangeDom, SS.intRange, List.mem_map, List.mem_range]
+  constructor
+  · rintro ⟨k, hk, rfl⟩
+    omega
+  · intro h
+    refine ⟨(v - lo).toNat, by omega, by omega⟩
+
+theorem CmpOp.toCmp_holds (op : CmpOp) (x y : Int) : op.toCmp.holds x y = op.holds x y := by
+  cases op <;> rfl
+
+theorem holds_reif (a : Nat → Int) (op : CmpOp) (x y b : Nat) :
+    PK.holds a (LP.reif op x y b).toPK = ((a b == 1) == op.holds (a x) (a y)) := by
+  show ((a b == 1) == op.toCmp.holds (a x) (a y)) = _
+  rw [CmpOp.toCmp_holds]
+
+theorem holds_boolOr2 (a : Nat → Int) (b1 b2 r : Nat) :
+    PK.holds a (LP.boolOr [b1, b2] r).toPK =
+      (decide (a r ≥ 1) == (decide (a b1 ≥ 1) || decide (a b2 ≥ 1))) := by
+  simp [LP.toPK, PK.holds, PK.truthy]
+
+theorem holds_reif_iff (a : Nat → Int) (op : CmpOp) (x y b : Nat) :
+    PK.holds a (LP.reif op x y b).toPK = true ↔ (a b = 1 ↔ op.holds (a x) (a y) = true) := by
+  rw [holds_reif, beq_iff_eq, Bool.eq_iff_iff, beq_iff_eq]
+
+theorem holds_boolOr2_iff (a : Nat → Int) (b1 b2 r : Nat) :
+    PK.holds a (LP.boolOr [b1, b2] r).toPK = true ↔ (a r ≥ 1 ↔ (a b1 ≥ 1 ∨ a b2 ≥ 1)) := by
+  rw [holds_boolOr2, beq_iff_eq, Bool.eq_iff_iff, Bool.or_eq_true]
+  simp only [decide_eq_true_eq]
+
+theorem mem_boolDom (v : Int) : v ∈ boolDom ↔ (v = 0 ∨ v = 1) := by
+  simp only [boolDom, rangeDom, SS.intRange, List.mem_map, List.mem_range]
+  constructor
+  · rintro ⟨k, hk, rfl⟩
+    omega
+  · intro h
+    refine ⟨v.toNat, by omega, by omega⟩
+
+/-- one more propagator at the end of a block -/
+theorem NewSat_snoc (n : Nat) (D : List Dom) (P : List LP) (p : LP) (a : Nat → Int) :
+    NewSat n D (P ++ [p]) a ↔ NewSat n D P a ∧ PK.holds a p.toPK = true := by
+  have := NewSat_append n D [] P [p] a
+  rw [List.append_nil] at this
+  rw [this]
+  constructor
+  · rintro ⟨h, h'⟩
+    exact ⟨h, h'.2 _ (List.mem_singleton.2 rfl)⟩
+  · rintro ⟨h, h'⟩
+    exact ⟨h, fun j d hj => by simp at hj, fun lp hlp => by rw [List.mem_singleton.1 hlp]; exact h'⟩
+
+/-- three variables in front of a block -/
+theorem NewSat_front3 (n : Nat) (d1 d2 d3 : Dom) (D : List Dom) (P : List LP) (a : Nat → Int) :
+    NewSat n ([d1, d2, d3] ++ D) P a ↔
+      (a n ∈ d1 ∧ a (n + 1) ∈ d2 ∧ a (n + 2) ∈ d3) ∧ NewSat (n + 3) D P a := by
+  have := NewSat_append n [d1, d2, d3] D [] P a
+  rw [List.nil_append] at this
+  rw [this]
+  constructor
+  · rintro ⟨h, h'⟩
+    exact ⟨⟨h.1 0 d1 rfl, h.1 1 d2 rfl, h.1 2 d3 rfl⟩, h'⟩
+  · rintro ⟨⟨h1, h2, h3⟩, h'⟩
+    refine ⟨⟨?_, fun lp hlp => by cases hlp⟩, h'⟩
+    intro j d hj
+    match j, hj with
+    | 0, hj => simp at hj; subst hj; exact h1
+    | 1, hj => simp at hj; subst hj; exact h2
+    | 2, hj => simp at hj; subst hj; exact h3
+    | j + 3, hj => simp at hj
+
+/-- **the two `get_expr_var` calls of a comparison** on `+`/`-` trees: the appended block `(D, P)`
+makes the two operand variables carry the values of the two sides (forced, unique, and — under the
+range hypothesis — existing, robustly) -/
+theorem operands_spec (m : LModel) (l r : Expr)
+    (hasl : l.AS = true) (hasr : r.AS = true)
+    (hvl : l.varsLt m.doms.length = true) (hvr : r.varsLt m.doms.length = true) :
+    ∃ (D : List Dom) (P : List LP),
+      Ext m ((m.getExprVar l).1.getExprVar r).1 D P ∧
+      (∀ a, NewSat m.doms.length D P a →
+        a (m.getExprVar l).2 = l.ev a ∧ a ((m.getExprVar l).1.getExprVar r).2 = r.ev a) ∧
+      (∀ a a', Agree m.doms.length a a' → NewSat m.doms.length D P a → NewSat m.doms.length D P a' →
+        Agree (m.doms.length + D.length) a a') ∧
+      (∀ a, l.InR a → r.InR a → ∃ a', Agree m.doms.length a' a ∧
+        ∀ a'', Agree (m.doms.length + D.length) a'' a' → NewSat m.doms.length D P a'') := by
+  obtain ⟨D1, P1, e1, _, g1, u1, b1⟩ := getExprVar_spec l hasl m hvl
+  have hlen1 : (m.getExprVar l).1.doms.length = m.doms.length + D1.length := e1.length
+  obtain ⟨D2, P2, e2, _, g2, u2, b2⟩ := getExprVar_spec r hasr (m.getExprVar l).1
+    (Expr.varsLt_mono r _ _ (by omega) hvr)
+  rw [hlen1] at g2 u2 b2
+  refine ⟨D1 ++ D2, P1 ++ P2, e1.trans e2, ?_, ?_, ?_⟩
+  · intro a hs
+    rw [NewSat_append] at hs
+    exact ⟨g1 a hs.1, g2 a hs.2⟩
+  · intro a a' hab hsa hsb
+    rw [NewSat_append] at hsa hsb
+    have h := u2 a a' (u1 a a' hab hsa.1 hsb.1) hsa.2 hsb.2
+    exact h.mono (by simp; omega)
+  · intro a hrl hrr
+    obtain ⟨a1, ha1, hrob1⟩ := b1 a hrl
+    obtain ⟨a2, ha2, hrob2⟩ := b2 a1 (Expr.InR_congr r _ hvr a a1 ha1.symm hrr)
+    refine ⟨a2, (ha2.mono (by omega)).trans ha1, fun a'' hag => ?_⟩
+    rw [NewSat_append]
+    have hag2 : Agree (m.doms.length + D1.length + D2.length) a'' a2 := hag.mono (by simp; omega)
+    exact ⟨hrob1 a'' ((hag2.mono (by omega)).trans ha2), hrob2 a'' hag2⟩
+
+
+/-- **the `ReifiedBinary` arm** on `+`/`-` trees: the operand block plus `b ⇔ (lv op rv)` -/
+theorem postReif_spec (m : LModel) (l r : Expr) (op : CmpOp) (b : Nat)
+    (hasl : l.AS = true) (hasr : r.AS = true)
+    (hvl : l.varsLt m.doms.length = true) (hvr : r.varsLt m.doms.length = true) :
+    ∃ (D : List Dom) (P : List LP) (lv rv : Nat),
+      Ext m (m.postReif l op r b) D (P ++ [.reif op lv rv b]) ∧
+      (∀ a, NewSat m.doms.length D P a → a lv = l.ev a ∧ a rv = r.ev a) ∧
+      (∀ a a', Agree m.doms.length a a' → NewSat m.doms.length D P a → NewSat m.doms.length D P a' →
+        Agree (m.doms.length + D.length) a a') ∧
+      (∀ a, l.InR a → r.InR a → ∃ a', Agree m.doms.length a' a ∧
+        ∀ a'', Agree (m.doms.length + D.length) a'' a' → NewSat m.doms.length D P a'') := by
+  obtain ⟨D, P, x, g, u, e⟩ := operands_spec m l r hasl hasr hvl hvr
+  refine ⟨D, P, _, _, ?_, g, u, e⟩
+  have := x.trans (Ext.post _ (.reif op (m.getExprVar l).2 ((m.getExprVar l).1.getExprVar r).2 b))
+  rw [List.append_nil] at this
+  exact this
+
+/-- the model after the three `newVar`s of `reifOr` -/
+def ext3 (m : LModel) : LModel := { m with doms := m.doms ++ [boolDom, boolDom, [1]] }
+
+theorem reifOr_eq (m : LModel) (l1 r1 l2 r2 : Expr) (op1 op2 : CmpOp) :
+    m.reifOr l1 op1 r1 l2 op2 r2 =
+      ((m.ext3.postReif l1 op1 r1 m.doms.length).postReif l2 op2 r2 (m.doms.length + 1)).post
+        (.boolOr [m.doms.length, m.doms.length + 1] (m.doms.length + 2)) := by
+  simp [reifOr, newVar, ext3, List.append_assoc]
+
+
+theorem bin_eval_AS (l r : Expr) (op : CmpOp) (hasl : l.AS = true) (hasr : r.AS = true) (a : Nat → Int) :
+    (Con.bin l op r).eval a = some (op.holds (l.ev a) (r.ev a)) := by
+  simp [Con.eval, Expr.eval_eq_ev l hasl, Expr.eval_eq_ev r hasr]
+
+/-- a value of a boolean variable is `1` iff it is `≥ 1` -/
+theorem bool_ge_one {v : Int} (h : v = 0 ∨ v = 1) : decide (v ≥ 1) = (v == 1) := by
+  rcases h with h | h <;> subst h <;> decide
+
+/-- **`reifOr`** on `+`/`-` trees over the variables of `m` (`n = m.doms.length`): the lowering
+appends the variables `b1 = n`, `b2 = n+1` (booleans), `one = n+2` (`{1}`), then the auxiliary
+variables `D`, and propagators `P`, such that
+* (meaning) in every assignment satisfying the new domains and `P`: `b1`, `b2 ∈ {0,1}`, `one = 1`,
+  `b1 = 1 ⇔` the first comparison is true, `b2 = 1 ⇔` the second one is, and `b1 = 1 ∨ b2 = 1`;
+* (unique) two satisfying assignments that agree on the old variables agree on all the new ones;
+* (exists) if every sub-expression value is in `[-1000, 1000]` and one of the two comparisons is
+  true, the assignment of the old variables extends to a satisfying one. -/
+theorem reifOr_spec (m : LModel) (l1 r1 l2 r2 : Expr) (op1 op2 : CmpOp)
+    (h1 : l1.AS = true) (h2 : r1.AS = true) (h3 : l2.AS = true) (h4 : r2.AS = true)
+    (v1 : l1.varsLt m.doms.length = true) (v2 : r1.varsLt m.doms.length = true)
+    (v3 : l2.varsLt m.doms.length = true) (v4 : r2.varsLt m.doms.length = true) :
+    ∃ (D : List Dom) (P : List LP),
+      Ext m (m.reifOr l1 op1 r1 l2 op2 r2) ([boolDom, boolDom, [1]] ++ D) P ∧
+      (∀ a, NewSat m.doms.length ([boolDom, boolDom, [1]] ++ D) P a →
+        (a m.doms.length = 0 ∨ a m.doms.length = 1) ∧
+        (a (m.doms.length + 1) = 0 ∨ a (m.doms.length + 1) = 1) ∧ a (m.doms.length + 2) = 1 ∧
+        (a m.doms.length = 1 ↔ op1.holds (l1.ev a) (r1.ev a) = true) ∧
+        (a (m.doms.length + 1) = 1 ↔ op2.holds (l2.ev a) (r2.ev a) = true) ∧
+        (a m.doms.length = 1 ∨ a (m.doms.length + 1) = 1)) ∧
+      (∀ a a', Agree m.doms.length a a' →
+        NewSat m.doms.length ([boolDom, boolDom, [1]] ++ D) P a →
+        NewSat m.doms.length ([boolDom, boolDom, [1]] ++ D) P a' →
+        Agree (m.doms.length + ([boolDom, boolDom, [1]] ++ D).length) a a') ∧
+      (∀ a, l1.InR a → r1.InR a → l2.InR a → r2.InR a →
+        (op1.holds (l1.ev a) (r1.ev a) || op2.holds (l2.ev a) (r2.ev a)) = true →
+        ∃ a', Agree m.doms.length a' a ∧ NewSat m.doms.length ([boolDom, boolDom, [1]] ++ D) P a') := by
+  have hl3 : m.ext3.doms.length = m.doms.length + 3 := by simp [ext3]
+  have e0 : Ext m m.ext3 [boolDom, boolDom, [1]] [] := ⟨rfl, by simp [ext3], rfl, rfl⟩
+  have mono3 : ∀ e : Expr, e.varsLt m.doms.length = true → e.varsLt m.ext3.doms.length = true :=
+    fun e h => Expr.varsLt_mono e _ _ (by omega) h
+  obtain ⟨D1, P1, lv1, rv1, x1, g1, u1, b1⟩ :=
+    postReif_spec m.ext3 l1 r1 op1 m.doms.length h1 h2 (mono3 _ v1) (mono3 _ v2)
+  rw [hl3] at g1 u1 b1
+  have hl4 : (m.ext3.postReif l1 op1 r1 m.doms.length).doms.length = m.doms.length + 3 + D1.length := by
+    rw [x1.length, hl3]
+  have mono4 : ∀ e : Expr, e.varsLt m.doms.length = true →
+      e.varsLt (m.ext3.postReif l1 op1 r1 m.doms.length).doms.length = true :=
+    fun e h => Expr.varsLt_mono e _ _ (by omega) h
+  obtain ⟨D2, P2, lv2, rv2, x2, g2, u2, b2⟩ :=
+    postReif_spec (m.ext3.postReif l1 op1 r1 m.doms.length) l2 r2 op2 (m.doms.length + 1) h3 h4
+      (mono4 _ v3) (mono4 _ v4)
+  rw [hl4] at g2 u2 b2
+  have xall := ((e0.trans x1).trans x2).trans
+    (Ext.post _ (.boolOr [m.doms.length, m.doms.length + 1] (m.doms.length + 2)))
+  -- satisfaction of the whole block, taken apart
+  have hsat : ∀ a, NewSat m.doms.length ([boolDom, boolDom, [1]] ++ (D1 ++ D2))
+        (((P1 ++ [.reif op1 lv1 rv1 m.doms.length]) ++ (P2 ++ [.reif op2 lv2 rv2 (m.doms.length + 1)])) ++
+          [.boolOr [m.doms.length, m.doms.length + 1] (m.doms.length + 2)]) a ↔
+      ((a m.doms.length = 0 ∨ a m.doms.length = 1) ∧
+        (a (m.doms.length + 1) = 0 ∨ a (m.doms.length + 1) = 1) ∧ a (m.doms.length + 2) = 1) ∧
+      (NewSat (m.doms.length + 3) D1 P1 a ∧
+        ((a m.doms.length == 1) == op1.holds (a lv1) (a rv1)) = true) ∧
+      (NewSat (m.doms.length + 3 + D1.length) D2 P2 a ∧
+        ((a (m.doms.length + 1) == 1) == op2.holds (a lv2) (a rv2)) = true) ∧
+      (decide (a (m.doms.length + 2) ≥ 1) ==
+        (decide (a m.doms.length ≥ 1) || decide (a (m.doms.length + 1) ≥ 1))) = true := by
+    intro a
+    rw [NewSat_snoc, NewSat_front3, NewSat_append, NewSat_snoc, NewSat_snoc, holds_reif, holds_reif,
+      holds_boolOr2, mem_boolDom, mem_boolDom, List.mem_singleton]
+    constructor
+    · rintro ⟨⟨hf, hb1, hb2⟩, hor⟩
+      exact ⟨hf, hb1, hb2, hor⟩
+    · rintro ⟨hf, hb1, hb2, hor⟩
+      exact ⟨⟨hf, hb1, hb2⟩, hor⟩
+  -- meaning
+  have hmean : ∀ a, NewSat m.doms.length ([boolDom, boolDom, [1]] ++ (D1 ++ D2))
+        (((P1 ++ [.reif op1 lv1 rv1 m.doms.length]) ++ (P2 ++ [.reif op2 lv2 rv2 (m.doms.length + 1)])) ++
+          [.boolOr [m.doms.length, m.doms.length + 1] (m.doms.length + 2)]) a →
+      (a m.doms.length = 0 ∨ a m.doms.length = 1) ∧
+        (a (m.doms.length + 1) = 0 ∨ a (m.doms.length + 1) = 1) ∧ a (m.doms.length + 2) = 1 ∧
+        (a m.doms.length = 1 ↔ op1.holds (l1.ev a) (r1.ev a) = true) ∧
+        (a (m.doms.length + 1) = 1 ↔ op2.holds (l2.ev a) (r2.ev a) = true) ∧
+        (a m.doms.length = 1 ∨ a (m.doms.length + 1) = 1) := by
+    intro a hs
+    obtain ⟨⟨hb1, hb2, hone⟩, ⟨s1, r1'⟩, ⟨s2, r2'⟩, hor⟩ := (hsat a).1 hs
+    obtain ⟨e1, e2⟩ := g1 a s1
+    obtain ⟨e3, e4⟩ := g2 a s2
+    rw [e1, e2] at r1'
+    rw [e3, e4] at r2'
+    rw [bool_ge_one hb1, bool_ge_one hb2, hone] at hor
+    refine ⟨hb1, hb2, hone, ?_, ?_, ?_⟩
+    · rw [← beq_iff_eq]; rw [beq_iff_eq] at r1'; rw [r1']
+    · rw [← beq_iff_eq]; rw [beq_iff_eq] at r2'; rw [r2']
+    · simpa using hor
+  refine ⟨D1 ++ D2, ((P1 ++ [.reif op1 lv1 rv1 m.doms.length]) ++
+      (P2 ++ [.reif op2 lv2 rv2 (m.doms.length + 1)])) ++
+      [.boolOr [m.doms.length, m.doms.length + 1] (m.doms.length + 2)], ?_, hmean, ?_, ?_⟩
+  · rw [reifOr_eq]
+    simpa [List.append_assoc] using xall
+  · intro a a' hag hsa hsa'
+    obtain ⟨hb1, hb2, hone, m1, m2, _⟩ := hmean a hsa
+    obtain ⟨hb1', hb2', hone', m1', m2', _⟩ := hmean a' hsa'
+    obtain ⟨_, ⟨s1, _⟩, ⟨s2, _⟩, _⟩ := (hsat a).1 hsa
+    obtain ⟨_, ⟨s1', _⟩, ⟨s2', _⟩, _⟩ := (hsat a').1 hsa'
+    have c1 : l1.ev a = l1.ev a' := Expr.ev_congr l1 _ v1 a a' hag
+    have c2 : r1.ev a = r1.ev a' := Expr.ev_congr r1 _ v2 a a' hag
+    have c3 : l2.ev a = l2.ev a' := Expr.ev_congr l2 _ v3 a a' hag
+    have c4 : r2.ev a = r2.ev a' := Expr.ev_congr r2 _ v4 a a' hag
+    rw [c1, c2] at m1
+    rw [c3, c4] at m2
+    have hfront : Agree (m.doms.length + 3) a a' := by
+      intro i hi
+      by_cases hlt : i < m.doms.length
+      · exact hag i hlt
+      · have : i = m.doms.length ∨ i = m.doms.length + 1 ∨ i = m.doms.length + 2 := by omega
+        rcases this with rfl | rfl | rfl
+        · have : a m.doms.length = 1 ↔ a' m.doms.length = 1 := m1.trans m1'.symm
+          omega
+        · have : a (m.doms.length + 1) = 1 ↔ a' (m.doms.length + 1) = 1 := m2.trans m2'.symm
+          omega
+        · rw [hone, hone']
+    have := u2 a a' (u1 a a' hfront s1 s1') s2 s2'
+    exact this.mono (by simp; omega)
+  · intro a i1 i2 i3 i4 htrue
+    let a0 : Nat → Int := fun k =>
+      if k = m.doms.length then (if op1.holds (l1.ev a) (r1.ev a) then 1 else 0)
+      else if k = m.doms.length + 1 then (if op2.holds (l2.ev a) (r2.ev a) then 1 else 0)
+      else if k = m.doms.length + 2 then 1 else a k
+    have ha0 : Agree m.doms.length a0 a := by
+      intro k hk
+      show (if k = m.doms.length then _ else if k = m.doms.length + 1 then _
+        else if k = m.doms.length + 2 then _ else a k) = a k
+      rw [if_neg (by omega), if_neg (by omega), if_neg (by omega)]
+    have ha0n : a0 m.doms.length = if op1.holds (l1.ev a) (r1.ev a) then 1 else 0 := by
+      show (if m.doms.length = m.doms.length then _ else _) = _
+      rw [if_pos rfl]
+    have ha0n1 : a0 (m.doms.length + 1) = if op2.holds (l2.ev a) (r2.ev a) then 1 else 0 := by
+      show (if m.doms.length + 1 = m.doms.length then _ else if m.doms.length + 1 = m.doms.length + 1 then _ else _) = _
+      rw [if_neg (by omega), if_pos rfl]
+    have ha0n2 : a0 (m.doms.length + 2) = 1 := by
+      show (if m.doms.length + 2 = m.doms.length then _ else if m.doms.length + 2 = m.doms.length + 1 then _
+        else if m.doms.length + 2 = m.doms.length + 2 then _ else _) = _
+      rw [if_neg (by omega), if_neg (by omega), if_pos rfl]
+    obtain ⟨a1, ha1, rob1⟩ := b1 a0 (Expr.InR_congr l1 _ v1 a a0 ha0.symm i1)
+      (Expr.InR_congr r1 _ v2 a a0 ha0.symm i2)
+    have ha1a : Agree m.doms.length a1 a := (ha1.mono (by omega)).trans ha0
+    obtain ⟨a2, ha2, rob2⟩ := b2 a1 (Expr.InR_congr l2 _ v3 a a1 ha1a.symm i3)
+      (Expr.InR_congr r2 _ v4 a a1 ha1a.symm i4)
+    have ha2a : Agree m.doms.length a2 a := (ha2.mono (by omega)).trans ha1a
+    have ha21 : Agree (m.doms.length + 3) a2 a1 := ha2.mono (by omega)
+    have s1 : NewSat (m.doms.length + 3) D1 P1 a2 := rob1 a2 ha2
+    have s2 : NewSat (m.doms.length + 3 + D1.length) D2 P2 a2 := rob2 a2 (fun _ _ => rfl)
+    obtain ⟨e1, e2⟩ := g1 a2 s1
+    obtain ⟨e3, e4⟩ := g2 a2 s2
+    have c1 : l1.ev a2 = l1.ev a := Expr.ev_congr l1 _ v1 a2 a ha2a
+    have c2 : r1.ev a2 = r1.ev a := Expr.ev_congr r1 _ v2 a2 a ha2a
+    have c3 : l2.ev a2 = l2.ev a := Expr.ev_congr l2 _ v3 a2 a ha2a
+    have c4 : r2.ev a2 = r2.ev a := Expr.ev_congr r2 _ v4 a2 a ha2a
+    have f0 : a2 m.doms.length = if op1.holds (l1.ev a) (r1.ev a) then 1 else 0 := by
+      rw [ha21 _ (by omega), ha1 _ (by omega), ha0n]
+    have f1 : a2 (m.doms.length + 1) = if op2.holds (l2.ev a) (r2.ev a) then 1 else 0 := by
+      rw [ha21 _ (by omega), ha1 _ (by omega), ha0n1]
+    have f2 : a2 (m.doms.length + 2) = 1 := by
+      rw [ha21 _ (by omega), ha1 _ (by omega), ha0n2]
+    refine ⟨a2, ha2a, (hsat a2).2 ⟨⟨?_, ?_, f2⟩, ⟨s1, ?_⟩, ⟨s2, ?_⟩, ?_⟩⟩
+    · rw [f0]; split <;> simp
+    · rw [f1]; split <;> simp
+    · rw [e1, e2, c1, c2, f0]; split <;> simp_all
+    · rw [e3, e4, c3, c4, f1]; split <;> simp_all
+    · rw [f0, f1, f2]
+      simp only [Bool.or_eq_true] at htrue
+      rcases htrue with h | h <;> simp [h]
 
 end LModel
 end Selen
